@@ -385,7 +385,11 @@ Sem(op, A, B, ia, iv, iw) ==
       [] OTHER -> R_(FALSE, Empty)
 
 (* Integer-valued observations: [en, out] with out a sequence of integers. *)
-QIntOps == {"shape", "get", "get_row_as_vec", "get_col_as_vec", "copy_row_as_vec", "copy_col_as_vec",
+(* DenseMatrix::iter() consumed through the other documented ways of using an Iterator: nth, skip, step_by,
+   count, last (each must behave like the corresponding number of next() calls on the row-major sequence) *)
+IterOps == {"iter_nth", "iter_skip", "iter_step", "iter_count", "iter_last"}
+QIntOps == IterOps \cup
+           {"shape", "get", "get_row_as_vec", "get_col_as_vec", "copy_row_as_vec", "copy_col_as_vec",
             "iter", "sum", "min", "max", "norm1", "norm_inf", "norm_ninf", "norm2sq", "normp",
             "max_diff", "dot",
             "v_len", "v_get", "v_to_vec", "v_sum", "v_norm1", "v_norm_inf", "v_norm_ninf",
@@ -397,6 +401,15 @@ QInt(op, A, B, ia) ==
       [] op \in {"get_row_as_vec", "copy_row_as_vec"} -> Q_(1 <= ia[1] /\ ia[1] <= A.r, Row(A, ia[1]))
       [] op \in {"get_col_as_vec", "copy_col_as_vec"} -> Q_(1 <= ia[1] /\ ia[1] <= A.c, Col(A, ia[1]))
       [] op \in {"iter", "v_to_vec"} -> Q_(TRUE, A.d)                  \* row-major iteration
+      \* iter().nth(k-1): the k-th element, or nothing when there are fewer
+      [] op = "iter_nth"  -> Q_(ia[1] >= 1, IF ia[1] <= Len(A.d) THEN <<A.d[ia[1]]>> ELSE <<>>)
+      \* iter().skip(k).collect()
+      [] op = "iter_skip" -> Q_(ia[1] >= 0, SubSeq(A.d, ia[1] + 1, Len(A.d)))
+      \* iter().step_by(k).collect(): elements 1, 1+k, 1+2k, ...
+      [] op = "iter_step" -> Q_(ia[1] >= 1, IF Len(A.d) = 0 THEN <<>>
+                                            ELSE [x \in 1..(((Len(A.d) - 1) \div ia[1]) + 1) |-> A.d[(x - 1) * ia[1] + 1]])
+      [] op = "iter_count" -> Q_(TRUE, <<Len(A.d)>>)
+      [] op = "iter_last"  -> Q_(TRUE, IF Len(A.d) = 0 THEN <<>> ELSE <<A.d[Len(A.d)]>>)
       [] op \in {"sum", "v_sum"} -> Q_(TRUE, <<Sum(A)>>)
       [] op = "min" -> Q_(NonEmpty(A), <<MinOf(A)>>)
       [] op = "max" -> Q_(NonEmpty(A), <<MaxOf(A)>>)
@@ -451,12 +464,12 @@ QR_(en, n, Con(_), Fr(_), Tol(_)) ==
     IF en THEN [en |-> TRUE, con |-> [x \in 1..n |-> Con(x)], fr |-> [x \in 1..n |-> Fr(x)], tol |-> [x \in 1..n |-> Tol(x)]]
     ELSE QRNone
 
+(* (the lanes and the tolerance are operator PARAMETERS: evaluated once, not once per lane) *)
+MeanLanes(ls, tol) == QR_(TRUE, Len(ls), LAMBDA x : TRUE, LAMBDA x : MeanFrac(ls[x]), LAMBDA x : tol)
+
 QRat(ty, op, A, B, ia, iv, iw) ==
     CASE op \in {"column_mean", "mean"} ->
-            LET ax == IF op = "mean" THEN ia[1] ELSE 0
-                ls == Lanes(A, ax)
-            IN  QR_(NonEmpty(A), Len(ls), LAMBDA x : TRUE, LAMBDA x : MeanFrac(ls[x]),
-                    LAMBDA x : TolTy(ty, NormInf(A)))
+            IF NonEmpty(A) THEN MeanLanes(Lanes(A, IF op = "mean" THEN ia[1] ELSE 0), TolTy(ty, NormInf(A))) ELSE QRNone
       [] op = "v_mean" -> QR_(A.c >= 1, 1, LAMBDA x : TRUE, LAMBDA x : MeanFrac(A.d), LAMBDA x : TolTy(ty, NormInf(A)))
       [] op = "cov" ->
             LET mg == NormInf(A) IN
